@@ -1650,7 +1650,7 @@ func (p *prop) run(line string) core.Outcome {
 			o.Failures[i].Case = line
 		}
 		return o
-	case "stress":
+	case "stress", "stressdyn":
 		return p.runStress(line, f)
 	case "static":
 		return p.runStatic(line, f)
